@@ -77,7 +77,24 @@ fn free_port(v6: bool) -> u16 {
     l.local_addr().unwrap().port()
 }
 
+thread_local! {
+    /// responses seen without `Cache-Control: no-store` (C20), collected per session
+    static NO_CC: std::cell::RefCell<Vec<String>> = const { std::cell::RefCell::new(Vec::new()) };
+}
+
+/// One request over a real socket; every response is also checked for `Cache-Control`.
 pub fn http(addr: &str, method: &str, path: &str, headers: &[(&str, String)], body: Option<&[u8]>, chunked: bool) -> Result<RawHttp, String> {
+    let r = http_raw(addr, method, path, headers, body, chunked);
+    if let Ok(raw) = &r {
+        let ok = raw.headers.iter().any(|(k, v)| k == "cache-control" && String::from_utf8_lossy(v).to_ascii_lowercase().split(',').any(|t| t.trim() == "no-store"));
+        if !ok {
+            NO_CC.with(|c| c.borrow_mut().push(format!("{method} {path} on {addr} answered {} without Cache-Control: no-store", raw.status)));
+        }
+    }
+    r
+}
+
+pub fn http_raw(addr: &str, method: &str, path: &str, headers: &[(&str, String)], body: Option<&[u8]>, chunked: bool) -> Result<RawHttp, String> {
     let sa = addr.to_socket_addrs().map_err(|e| format!("resolve {addr}: {e}"))?.next().ok_or("no address")?;
     let mut s = TcpStream::connect_timeout(&sa, Duration::from_secs(3)).map_err(|e| format!("connect {addr}: {e}"))?;
     s.set_read_timeout(Some(Duration::from_secs(20))).ok();
@@ -240,7 +257,7 @@ fn start(l: &Launch, dir: &Path, addrs: &[String], ids: &Ids) -> Result<Running,
         if let Ok(Some(st)) = r.child.try_wait() {
             return Err(format!("server exited at once with {st}"));
         }
-        if http(&addrs[0], "GET", "/", &[], None, false).is_ok() {
+        if http_raw(&addrs[0], "GET", "/", &[], None, false).is_ok() {
             return Ok(r);
         }
         if t0.elapsed() > Duration::from_secs(10) {
@@ -267,6 +284,15 @@ fn urg_of(r: &RawHttp) -> Result<Urg, String> {
 
 /// One configuration: launch, session, kill, restart, re-read. Returns (findings, requests).
 pub fn session(l: &Launch, seed: u64) -> (Vec<(String, String)>, u64) {
+    NO_CC.with(|c| c.borrow_mut().clear());
+    let (mut findings, n) = session_inner(l, seed);
+    for m in NO_CC.with(|c| std::mem::take(&mut *c.borrow_mut())) {
+        findings.push(("no-cache-control".into(), m));
+    }
+    (findings, n)
+}
+
+fn session_inner(l: &Launch, seed: u64) -> (Vec<(String, String)>, u64) {
     let mut findings: Vec<(String, String)> = vec![];
     let mut nreq = 0u64;
     macro_rules! bad {
@@ -308,11 +334,7 @@ pub fn session(l: &Launch, seed: u64) -> (Vec<(String, String)>, u64) {
     for a in &addrs {
         nreq += 1;
         match http(a, "GET", "/", &[], None, false) {
-            Ok(r) if r.status == 200 => {
-                if !r.headers.iter().any(|(k, v)| k == "cache-control" && String::from_utf8_lossy(v).contains("no-store")) {
-                    bad!("no-cache-control", "GET / on {a} carries no Cache-Control: no-store");
-                }
-            }
+            Ok(r) if r.status == 200 => {}
             Ok(r) => bad!("address-not-served", "GET / on {a} answered {}", r.status),
             Err(e) => bad!("address-not-served", "configured listen address {a} does not answer: {e}"),
         }
@@ -497,6 +519,28 @@ pub fn session(l: &Launch, seed: u64) -> (Vec<(String, String)>, u64) {
         (Err(e), _) => bad!("address-not-served", "after restart: {e}"),
         _ => {}
     }
+    // ---- storage failure under the running server: whatever it answers now (it cannot serve the
+    //      data any more) still has to be a response, and still has to forbid caching
+    let junk = vec![0x5au8; 8192];
+    let _ = std::fs::write(dir.join(DB_FILE), &junk);
+    let _ = std::fs::remove_file(dir.join(format!("{DB_FILE}-wal")));
+    let reqs: Vec<(&str, String, Option<(&str, Vec<u8>)>)> = vec![
+        ("GET", format!("/v1/client/get-child-version/{}", Uuid::nil()), None),
+        ("GET", "/v1/client/snapshot".to_string(), None),
+        ("POST", format!("/v1/client/add-version/{latest}"), Some((HS_CT, b"v".to_vec()))),
+        ("POST", format!("/v1/client/add-snapshot/{latest}"), Some((SNAP_CT, b"s".to_vec()))),
+    ];
+    for (m, p, b) in reqs {
+        let mut hs = vec![cid(a_id)];
+        if let Some((ct, _)) = &b {
+            hs.push(("Content-Type", ct.to_string()));
+        }
+        nreq += 1;
+        let ad = next_addr(&addrs);
+        if let Err(e) = http(&ad, m, &p, &hs, b.as_ref().map(|x| x.1.as_slice()), false) {
+            bad!("no-answer-on-storage-failure", "with the database file destroyed, {m} {p} got no HTTP answer at all: {e}");
+        }
+    }
     (findings, nreq)
 }
 
@@ -544,6 +588,13 @@ pub fn launches(quick: bool) -> Vec<Launch> {
                 l.days_via = via;
                 out.push(l);
             }
+        }
+        // both targets small at once, so that one measure is in its low band while the other is high
+        for (v, d) in [(3u32, 0i64), (1, 2)] {
+            let mut l = base.clone();
+            l.versions = Some(v);
+            l.days = Some(d);
+            out.push(l);
         }
         // everything from the environment at once; everything by flag at once
         for via in [Via::Env, Via::Flag] {
